@@ -53,6 +53,8 @@ func Run(cfg hx.Config) (*hx.Meta, error) {
 	// round 5: named types that carry String()/Error() methods (fmt calls them under every verb but %#v),
 	// and maps whose key type owns pointers (several keys of one map may print the same text)
 	shapes = ga.Dedup(append(shapes, append(ga.StringerShapesR5(), ga.PtrKeyTypesR5(cat)...)...))
+	// ... and named structs whose GoString method IS the derived function (%#v calls it on keys and elements)
+	shapes = ga.Dedup(append(shapes, ga.GoStringerShapesR5(cat)...))
 	// round 4: generic instances and aliases; the members of a family are generated in one package
 	family := map[string]int{}
 	for fi, fam := range ga.HAFamilies(cat) {
